@@ -1,5 +1,5 @@
 (* Trace checker for C12.  kind 2 = the specification fails on the observed
-   trace (position = lane number; inbound lanes are numbered from 100).
+   trace (position = lane number; inbound lanes are numbered from 100, lanes of a removed peer from 200 / 300).
    kind 1 = the counters on an outbound lane differ from what the sequential
    numbering loop of C04 (Nonce.Seq.number) gives for the TUN-read order
    (single flusher). *)
@@ -30,8 +30,9 @@ Definition ol (read sent : list int) (bad : int) : olane :=
   {| o_read := nruns read; o_sent := pruns sent; o_bad := n_of_int bad |}.
 Definition il (arr wr : list int) (bad : int) : ilane :=
   {| i_arr := nruns arr; i_wr := nruns wr; i_bad := n_of_int bad |}.
-Definition mk (outs : list olane) (ins : list ilane) (quiet : bool) (n0 : list int) : case :=
-  {| c_tr := {| t_out := outs; t_in := ins; t_quiet := quiet |}; c_n0 := ns_of_ints n0 |}.
+Definition mk (outs : list olane) (ins : list ilane) (quiet : bool) (n0 : list int)
+              (outp : list olane) (inp : list ilane) : case :=
+  {| c_tr := {| t_out := outs; t_in := ins; t_quiet := quiet; t_outp := outp; t_inp := inp |}; c_n0 := ns_of_ints n0 |}.
 
 Fixpoint eqlp (a b : list (N * N)) : bool :=
   match a, b with
@@ -64,7 +65,9 @@ Definition check_case (k : case) : list (N * N) :=
   let t := c_tr k in
   (if t_quiet t then map (fun i => (1, i)) (numbered_fails (t_out t) (c_n0 k) 0) else []) ++
   map (fun i => (2, i)) (idx_fails (olane_ok (t_quiet t)) (t_out t) 0) ++
-  map (fun i => (2, i)) (idx_fails (ilane_ok (t_quiet t)) (t_in t) 100).
+  map (fun i => (2, i)) (idx_fails (ilane_ok (t_quiet t)) (t_in t) 100) ++
+  map (fun i => (2, i)) (idx_fails (olane_ok false) (t_outp t) 200) ++
+  map (fun i => (2, i)) (idx_fails (ilane_ok false) (t_inp t) 300).
 
 Fixpoint check_cases (ks : list case) (idx : N) : list (N * N * N) :=
   match ks with
